@@ -105,6 +105,11 @@ structure R where
 /-- priorities the dispatcher compares at a decision: the adjust value where there is one. -/
 def effPrio (s : St) (it : Item) : Int := if it.adj then adjVal s it else it.prio
 
+/-- a crash or a hang of the queue is a violation of every property that promises that work runs, that the queue
+    keeps its pace, that errors are reported and subscribing is safe, or that a call returns without panic. -/
+def crashClauses : List String :=
+  ["C19.no_crash_no_hang", "C04.no_crash_no_hang", "C09.no_crash_no_hang", "C14.no_crash_no_hang", "C16.no_crash_no_hang"]
+
 /-- C05 (with the model's knowledge of who was waiting in the queue): if `m` was waiting and has
     now started, no item that was waiting with it and is still waiting comes before it. -/
 def priorityOrderOK (before : St) (o : Obs) (newly : List Nat) : Bool :=
@@ -140,7 +145,7 @@ def step (cs : CaseSt) (op obs : String) : CaseSt × R :=
     -- model and implementation have diverged: only the clauses that need no model state are still evaluated
     if crashed then
       if cs.feats.contains "crashed" then (cs, { branch := "skipped-after-divergence" })
-      else ({ cs with feats := "crashed" :: cs.feats }, { mon := ["C19.no_crash_no_hang"], branch := "crash" })
+      else ({ cs with feats := "crashed" :: cs.feats }, { mon := crashClauses, branch := "crash" })
     else match parseObs ofs with
       | none => (cs, { branch := "skipped-after-divergence" })
       | some o =>
@@ -166,7 +171,7 @@ def step (cs : CaseSt) (op obs : String) : CaseSt × R :=
            branch := "after-divergence" })
   else
   if crashed then
-    ({ cs with dead := true, feats := "crashed" :: cs.feats }, { diffs := ["alive"], mon := ["C19.no_crash_no_hang"], branch := "crash", model := "alive" }) else
+    ({ cs with dead := true, feats := "crashed" :: cs.feats }, { diffs := ["alive"], mon := crashClauses, branch := "crash", model := "alive" }) else
   match parseObs ofs with
   | none => ({ cs with dead := true }, { diffs := ["protocol"], mon := ["protocol.unparsable"], branch := "bad" })
   | some o =>
